@@ -73,6 +73,12 @@ def classify_component(facts, body, t):
             it = nx[2][0]
             src = it[2] if it[0] == "var" else it
             return ("loopitem", n[2], src, nx[1])
+    # the same under enumerate(): (index, (key, value))
+    if n[0] == "field" and n[1][0] == "field" and n[1][2] == "1" and n[1][1][0] == "some":
+        nx = n[1][1][1]
+        if nx[0] == "call" and nx[1].startswith("<std::iter::Enumerate<") and nx[1].endswith("::next"):
+            src = iter_source(nx, through=("std::iter::Iterator::enumerate",))
+            return ("loopitem", n[2], src, nx[1])
     if n[0] == "field":
         return ("field", n)
     return ("unknown", n)
@@ -212,6 +218,19 @@ def prefix_roles(body, t, loop_header):
             continue
         if strip(body.resolve_local(local)) != s_:
             continue
+        if all(b in blk for b, _ in vals) and len(vals) == 2:
+            # chosen inside the loop by the enumerate index: `if i == 0 { A } else { B }` -- A on the first item, B afterwards
+            for b, c in vals:
+                first = None
+                for _, a in atoms_at(body, b):
+                    ca = canon_atom(a)
+                    if ca[0] == "cmp" and ca[1] in ("Eq", "Ne") and ca[3] in (("?", "0"), ("const", 0)) and ca[2][0] == "Field" and "Enumerate" in ca[2][1] and ca[2][1].endswith(").0"):
+                        first = ca[4] if ca[1] == "Eq" else (not ca[4])
+                if first is True:
+                    entry = c if entry is None else ("multi", entry, c)
+                elif first is False:
+                    back = c if back is None else ("multi", back, c)
+            continue
         for b, c in vals:
             if b in blk:
                 back = c if back is None else ("multi", back, c)
@@ -292,6 +311,8 @@ STR = "core::str::<impl str>::"
 
 def cchar(t):
     t = strip(t)
+    if t[0] == "named" and isinstance(t[3], tuple) and t[3] and t[3][0] == "char":
+        return chr(t[3][1])   # a named constant (`const SEPARATOR: char = ','`), evaluated by the compiler
     if t[0] == "const" and isinstance(t[1], tuple) and t[1][0] == "char":
         return chr(t[1][1])
     return None
@@ -299,6 +320,8 @@ def cchar(t):
 
 def cstr(t):
     t = strip(t)
+    if t[0] == "named" and isinstance(t[3], str):
+        return t[3]
     if t[0] == "const" and isinstance(t[1], str):
         return t[1]
     return None
